@@ -119,5 +119,136 @@ theorem for3_body (br : List Int) (c : Int) (v : bt_assemble.V σ) : ∃ v1,
   rw [hq]
   exact ⟨_, rfl, rfl, rfl, rfl, rfl, rfl, rfl, rfl, rfl⟩
 
+/-- the detached nodes built so far are the rows `out` of the model: ids are positions, pids the model's parent list -/
+def Tab (nodes : List DNode) (out : List Int) : Prop :=
+  nodes.map (·.pid) = out ∧ nodes.map (·.id) = (List.range out.length).map (fun (k : Nat) => (k : Int))
+
+theorem Tab.length {nodes : List DNode} {out : List Int} (h : Tab nodes out) : nodes.length = out.length := by
+  have := congrArg List.length h.1
+  simpa using this
+
+theorem Tab.chain {nodes : List DNode} {out : List Int} (h : Tab nodes out) (p m : Nat) :
+    Tab (nodes ++ chainNodes (out.length : Int) (p : Int) m) (out ++ chainRows p out.length m) := by
+  refine ⟨?_, ?_⟩
+  · simp only [List.map_append, h.1, chainNodes, chainRows, List.map_cons, List.map_map]
+    congr 2
+    apply List.map_congr_left
+    intro k _
+    simp [mk] <;> omega
+  · simp only [List.map_append, h.2, chainNodes, chainRows, List.map_cons, List.map_map, List.length_append, List.length_cons,
+      List.length_map, List.length_range]
+    rw [List.range_add, List.range_succ_eq_map]
+    simp only [List.map_append, List.map_cons, List.map_map]
+    congr 2
+
+/-- the pairs returned by `pair` carry the sample counts of the kids `ks`, in order -/
+def Lens (h : Int) : List (List Int × Int) → List BT → Prop
+  | [], [] => True
+  | pr :: prs, k :: ks => (trim dupFirst dupLast pr.1 h pr.2).length = k.m ∧ Lens h prs ks
+  | _, _ => False
+
+/-- the `for br, c in pairs` loop: the model's `chains` -/
+theorem for3_loop (h : Int) (p : Nat) : ∀ (prs : List (List Int × Int)) (ks : List BT),
+    Lens dupFirst dupLast h prs ks →
+    ∀ (v : bt_assemble.V σ) (out : List Int), Tab v.nodes out → v.n_orig = h → v.pid_new = (p : Int) →
+    ∃ v', forEach (bt_assemble.for3 pair dupFirst dupLast) prs v = .next v' ∧
+      Tab v'.nodes (out ++ (chains ks p out.length).1) ∧
+      v'.stack = v.stack ++ List.zip (prs.map (·.2)) ((chains ks p out.length).2.map (fun (k : Nat) => (k : Int))) ∧
+      v'.ids = v.ids ∧ v'.pids = v.pids ∧ v'.branches = v.branches ∧ v'.cbs = v.cbs := by
+  intro prs
+  induction prs with
+  | nil =>
+    intro ks hF v out ht _ _
+    cases ks with
+    | nil => exact ⟨v, by simp [forEach], by simpa [chains] using ht, by simp [chains], rfl, rfl, rfl, rfl⟩
+    | cons k ks => simp [Lens] at hF
+  | cons pr prs ih =>
+    intro ks hF v out ht hno hpn
+    cases ks with
+    | nil => simp [Lens] at hF
+    | cons k ks =>
+    obtain ⟨hpk, hF'⟩ := hF
+    obtain ⟨br, c⟩ := pr
+    obtain ⟨v1, e1, hn, hs, hi, hp, hb, hpn1, hno1, hc⟩ := for3_body pair dupFirst dupLast br c v
+    simp only [hno] at hn hs
+    simp only [] at hpk
+    rw [hpk, hpn, Py.len_eq, ht.length] at hn
+    rw [hpk, Py.len_eq, ht.length] at hs
+    have ht1 : Tab v1.nodes (out ++ chainRows p out.length k.m) := by rw [hn]; exact ht.chain p k.m
+    obtain ⟨v', e', ht', hs', hi', hp', hb', hc'⟩ := ih ks hF' v1 _ ht1 (by rw [hno1, hno]) (by rw [hpn1, hpn])
+    refine ⟨v', ?_, ?_, ?_, by rw [hi', hi], by rw [hp', hp], by rw [hb', hb], by rw [hc', hc]⟩
+    · simp only [forEach, e1]; exact e'
+    · have e : (out ++ chainRows p out.length k.m).length = out.length + k.m + 1 := by
+        simp [chainRows]; omega
+      rw [e] at ht'
+      simpa [chains, List.append_assoc] using ht'
+    · have e : (out ++ chainRows p out.length k.m).length = out.length + k.m + 1 := by
+        simp [chainRows]; omega
+      rw [e] at hs'
+      rw [hs', hs]
+      simp [chains]
+
+variable (ids pids : List Int) (branches : Py.Dict Int (List (List Int)))
+
+mutual
+/-- **the key node handle `h` of the data represents the rose tree `t`** (the model's input): the kids of `t` are the children of `h`
+in the order in which `pair` returns them (whatever its state), `k.m` is the number of samples of the paired branch that survive
+`br[s:e]`, hereditarily -/
+def Rep : BT → Int → Prop
+  | .node _ _ ks, h => ∃ cs key prs, node_children ids pids h = some cs ∧ Py.idx ids h = some key ∧
+      (∀ s : σ, (pair s (Py.Dict.getD branches key []) cs).2 = prs) ∧ RepL ks h prs
+def RepL : List BT → Int → List (List Int × Int) → Prop
+  | [], _, [] => True
+  | k :: ks, h, pr :: prs => (trim dupFirst dupLast pr.1 h pr.2).length = k.m ∧ Rep k pr.2 ∧ RepL ks h prs
+  | _ :: _, _, [] => False
+  | [], _, _ :: _ => False
+end
+
+theorem RepL.lens : ∀ (ks : List BT) (h : Int) (prs : List (List Int × Int)),
+    RepL pair dupFirst dupLast ids pids branches ks h prs → Lens dupFirst dupLast h prs ks := by
+  intro ks
+  induction ks with
+  | nil => intro h prs hr; cases prs <;> simp_all [RepL, Lens]
+  | cons k ks ih =>
+    intro h prs hr
+    cases prs with
+    | nil => simp [RepL] at hr
+    | cons pr prs => simp only [RepL] at hr; exact ⟨hr.1, ih h prs hr.2.2⟩
+
+/-- the columns of the branch tree and its dictionary are never written -/
+def Fix (v : bt_assemble.V σ) : Prop := v.ids = ids ∧ v.pids = pids ∧ v.branches = branches
+
+/-- the variables after `n_orig, pid_new = stack.pop()`, `children = n_orig.children()` and the call of `pair` -/
+def afterPop (v : bt_assemble.V σ) (rest : List (Int × Int)) (h sid : Int) (cs : List Int) (s' : σ) : bt_assemble.V σ :=
+  { v with stack := rest, n_orig := h, pid_new := sid, children := cs, cbs := s' }
+
+theorem chains_length : ∀ (ks : List BT) (p L : Nat), (chains ks p L).2.length = ks.length := by
+  intro ks
+  induction ks with
+  | nil => intro p L; rfl
+  | cons k ks ih => intro p L; simp [chains, ih]
+
+/-- one iteration of the `while len(stack)` loop = one step of the model's machine -/
+theorem while_step (i : Int) (m : Nat) (ks : List BT) (h : Int) (sid : Nat) (rest : List (Int × Int)) (v : bt_assemble.V σ)
+    (out : List Int) (hrep : Rep pair dupFirst dupLast ids pids branches (.node i m ks) h)
+    (hst : v.stack = rest ++ [(h, (sid : Int))]) (ht : Tab v.nodes out) (hfix : Fix ids pids branches v) :
+    ∃ prs v1, RepL pair dupFirst dupLast ids pids branches ks h prs ∧
+      bt_assemble.while4_cond pair dupFirst dupLast v = some true ∧
+      bt_assemble.while4_body pair dupFirst dupLast v = .next v1 ∧
+      Tab v1.nodes (out ++ (chains ks sid out.length).1) ∧
+      v1.stack = rest ++ List.zip (prs.map (·.2)) ((chains ks sid out.length).2.map (fun (k : Nat) => (k : Int))) ∧
+      Fix ids pids branches v1 := by
+  simp only [Rep] at hrep
+  obtain ⟨cs, key, prs, hch, hkey, hpair, hL⟩ := hrep
+  obtain ⟨hi, hp, hb⟩ := hfix
+  have hbody : bt_assemble.while4_body pair dupFirst dupLast v =
+      forEach (bt_assemble.for3 pair dupFirst dupLast) prs (afterPop v rest h sid cs (pair v.cbs (Py.Dict.getD branches key []) cs).1) := by
+    simp only [bt_assemble.while4_body, Py.seq, Py.bind, hst, Py.pop_append, hi, hp, hb, hch, hkey, hpair v.cbs, afterPop]
+  obtain ⟨v', e, ht', hs', hi', hp', hb', _⟩ := for3_loop pair dupFirst dupLast h sid prs ks (hL.lens) 
+    (afterPop v rest h sid cs (pair v.cbs (Py.Dict.getD branches key []) cs).1) out ht rfl rfl
+  refine ⟨prs, v', hL, ?_, by rw [hbody, e], ht', hs', ?_⟩
+  · simp [bt_assemble.while4_cond, hst]; omega
+  · exact ⟨by rw [hi']; exact hi, by rw [hp']; exact hp, by rw [hb']; exact hb⟩
+
 end
 end RefineAsm
